@@ -266,7 +266,7 @@ def model_part(ctx):
     if ctx.tier == "thorough":
         ctx.model_check("Aliasing", dict(spec="Spec", invariants=["TypeOK"], properties=props, view="MCView",
                                          constants=mc_constants(nobj=1, maxcalls=4)), "sessions_1obj_deeper")
-    # the mechanism perlin has in the code today: rejected by both clauses separately (DESIGN 8 #8)
+    # negative twin: the mechanism perlin had before /repo c6e6981 (writes into the template): rejected by both clauses separately
     for p in ("InputsUntouchedP", "NoAliasP"):
         ctx.model_check("Aliasing", dict(spec="Spec", properties=[p], view="MCView",
                                          constants=mc_constants(perlin="asis", nobj=1)), "perlin_asis_" + p, expect="violation", workers=2)
@@ -416,9 +416,9 @@ META = {
                  "before/after digests, buffer identity and a write probe; every record and simulated call sequence judged "
                  "by TLC with the model's own clause operators",
     "level_text": "TLC model-checks Aliasing.tla (sessions of calls over a heap of buffers: InputsUntouched, NoAlias incl. "
-                  "write probe, IdentityKept as action properties; 8 broken mechanisms and perlin's current mechanism "
-                  "rejected). TLC enumerates the configuration space from the spec's API/exception table; each "
-                  "configuration (quick: 8 dtype/layout sweeps, thorough: all ~4600) and TLC-simulated call sequences are "
+                  "write probe, IdentityKept as action properties; 8 broken mechanisms and perlin's pre-repair mechanism "
+                  "(write into the template) rejected as negative twins). TLC enumerates the configuration space from the spec's API/exception table; each "
+                  "configuration (quick: 5 dtype/layout sweeps, ~260 configurations; thorough: all ~4600) and TLC-simulated call sequences are "
                   "run on the real library and Aliasing_Trace.tla judges the logged heap/object states step by step. "
                   "Exhaustive over the configuration space in the thorough tier; call sequences are sampled.",
     "level_note": "Trusted: TLC; sha1 digests of values/coordinates/attributes; np.shares_memory as buffer identity; the "
